@@ -76,7 +76,7 @@ func genCase(t *rapid.T) Case {
 	n := rapid.IntRange(3, 25).Draw(t, "n")
 	for i := 0; i < n; i++ {
 		op := Op{Client: rapid.IntRange(0, c.Clients-1).Draw(t, "client")}
-		op.Kind = rapid.SampledFrom([]string{"get", "get", "set", "set", "setbad", "settyped", "settyped", "update", "updatebad", "subscribe", "rawget", "set2", "update2", "subscribe2", "stats", "trace", "unsubscribe", "subscribe", "subscribe2", "terminate2", "stalecancel2"}).Draw(t, "kind")
+		op.Kind = rapid.SampledFrom([]string{"get", "get", "set", "set", "setbad", "settyped", "settyped", "update", "updatebad", "subscribe", "rawget", "set2", "update2", "subscribe2", "stats", "trace", "unsubscribe", "subscribe", "subscribe2", "terminate2", "stalecancel2", "unsubscribe", "brokensub"}).Draw(t, "kind")
 		switch op.Kind {
 		case "set", "update", "set2", "update2":
 			op.Value = rapid.Int32Range(0, 1<<30).Draw(t, "v")
@@ -85,6 +85,8 @@ func genCase(t *rapid.T) Case {
 		case "settyped":
 			op.ValHex, op.Desc = wrongTyped(t)
 			op.ByID = rapid.Bool().Draw(t, "byid")
+		case "unsubscribe":
+			op.Value = rapid.Int32Range(0, 3).Draw(t, "which") // which of the client's subscribers leaves
 		case "stats", "trace":
 			// statistics / tracing of the object switched on (1) or off (0)
 			op.Value = rapid.SampledFrom([]int32{1, 1, 0}).Draw(t, "onoff")
@@ -208,13 +210,14 @@ func rawProperty(raw *netkit.RawClient, sid uint32) (string, []byte, error) {
 func checkCase(c Case) error {
 	vt.Journal(prop, "TestRegister", "C14:process-died", c)
 	defer vt.JournalDone(prop, "TestRegister")
-	_, bomb, sid, clients, cleanup, err := setup(c.Clients)
+	env, bomb, sid, clients, cleanup, err := setup(c.Clients)
 	if err != nil {
 		return vt.Violationf("C14:setup", "%v", err)
 	}
 	defer cleanup()
 	model := int32(10) // Activate initialises the property with UpdateDelay(10)
 	twinGone := false  // the second object has been removed from its service
+	broken := 0        // subscribers whose connection is broken
 	rejected, typed, updates := 0, 0, 0
 
 	// every subscriber has exactly the accepted writes since it subscribed
@@ -385,6 +388,29 @@ func checkCase(c Case) error {
 			go s.run()
 			cl.subs2 = append(cl.subs2, s)
 			vt.Label("subscriber-on-second-object")
+		case "brokensub":
+			// one more connection registers for the change events and then stops
+			// listening (its reading side is shut down: what the server writes to
+			// it fails) without saying so: whoever else is registered, earlier or
+			// later, still gets every change
+			if broken >= 2 {
+				continue
+			}
+			bc, err := netkit.Dial(env.Addr)
+			if err != nil || !bc.Authenticate("u", "t", bound) {
+				return vt.Violationf("C14:setup", "raw client: %v", err)
+			}
+			defer bc.Close()
+			reg := binary.LittleEndian.AppendUint32(nil, 1)
+			reg = binary.LittleEndian.AppendUint32(reg, 101)
+			reg = binary.LittleEndian.AppendUint64(reg, uint64(880000+i))
+			if f, ok := bc.CallWait(sid, 1, 0, reg, bound); !ok || f.Type != netkit.Reply {
+				return vt.Violationf("C14:subscribe-error", "step %d: registerEvent(delay): %v", i, f)
+			}
+			if bc.CloseRead() {
+				broken++
+				vt.Label("subscriber-with-a-broken-connection")
+			}
 		case "subscribe":
 			if len(cl.subs) >= 2 {
 				continue
@@ -397,13 +423,14 @@ func checkCase(c Case) error {
 			go s.run()
 			cl.subs = append(cl.subs, s)
 		case "unsubscribe":
-			// the most recent subscriber of this client leaves (everything due to
-			// it has been checked after the previous step); the others stay
+			// one of this client's subscribers leaves, not necessarily the most recent
+			// (everything due to it has been checked after the previous step); the others stay
 			if len(cl.subs) == 0 {
 				continue
 			}
-			last := cl.subs[len(cl.subs)-1]
-			cl.subs = cl.subs[:len(cl.subs)-1]
+			k := int(op.Value) % len(cl.subs)
+			last := cl.subs[k]
+			cl.subs = append(append([]*subscriber{}, cl.subs[:k]...), cl.subs[k+1:]...)
 			last.cancel()
 			vt.Label("subscriber-left")
 		}
